@@ -7,7 +7,6 @@ import (
 	"net/http/httptest"
 	"net/url"
 	"os"
-	"path/filepath"
 	"strings"
 	"time"
 
@@ -206,9 +205,7 @@ func (d *drv) loseFile(name string) {
 	if b == nil {
 		return
 	}
-	h := b.Hash
-	p := filepath.Join(d.storeDir, "data", "blocks", string(h[0]), string(h[1]), string(h[2]), string(h[3]), string(h[4]), h[5:]+".dat.zlib")
-	err := os.Remove(p)
+	err := os.Remove(d.blockFile(b.Hash))
 	d.emit(rec.M{"ev": "LoseFile", "b": name, "was": err == nil}, fmt.Sprintf("losefile/%v", err == nil), err == nil)
 }
 
